@@ -106,6 +106,13 @@ def to_record(rid, intm, realm, solver, limit, reused):
     return rec
 
 
+def alias_rows(m):
+    """the same matrix, but equal rows are ONE list object (as in [[8, 10, 6]] * 2): still a matrix, and the
+    caller's rows must neither be modified nor be confused with one another"""
+    seen = {}
+    return [seen.setdefault(tuple(r), list(r)) for r in m]
+
+
 def replay_cases(states, extra):
     from engine import repo
     repo.activate()
@@ -120,7 +127,7 @@ def replay_cases(states, extra):
         n += 1
         fresh = (n % 2 == 0)
         s = Munkres() if fresh else solver
-        rec = to_record(n, m, [list(r) for r in m], s, extra['limit'], not fresh)
+        rec = to_record(n, m, alias_rows(m) if n % 3 == 0 else [list(r) for r in m], s, extra['limit'], not fresh)
         # direct comparison with the spec's optimum carried in the dump
         cost = sum(m[i - 1][j - 1] for i, j in rec['result']) if not rec['raised'] else None
         pairs = rec['result']
@@ -171,6 +178,11 @@ def random_chunk(seeds, extra):
         solver = Munkres()
         for k in range(extra['per_seed']):
             kind, im, rm = rand_matrix(rng, extra['big'])
+            if rng.random() < 0.25:
+                # repeat a row as the same object (and keep the integer image in step)
+                i, j = rng.randrange(len(rm)), rng.randrange(len(rm))
+                rm[j] = rm[i]
+                im[j] = list(im[i])
             reuse = rng.random() < 0.7
             s = solver if reuse else Munkres()
             rec = to_record(seed * 1000 + k, im, rm, s, extra['limit'], reuse)
